@@ -91,6 +91,7 @@ impl SpdpDiscoveredParticipantData {
     &self,
     is_metatraffic: bool,
     entity_id: Option<EntityId>,
+    qos: QosPolicies,
   ) -> RtpsReaderProxy {
     let remote_reader_guid = GUID::new_with_prefix_and_id(
       self.participant_guid.prefix,
@@ -100,11 +101,7 @@ impl SpdpDiscoveredParticipantData {
       },
     );
 
-    let mut proxy = RtpsReaderProxy::new(
-      remote_reader_guid,
-      QosPolicies::qos_none(), // TODO: What is the correct QoS value here?
-      self.expects_inline_qos,
-    );
+    let mut proxy = RtpsReaderProxy::new(remote_reader_guid, qos, self.expects_inline_qos);
 
     if !is_metatraffic {
       proxy
